@@ -147,6 +147,9 @@ def handle_trace_string_global(parser, events):
     vstr = b''
     lookup_events = []
     for event in events:
+        if event.eventid != events[0].eventid:
+            # An unrelated record of the same thread that happens to fall between the string's records.
+            continue
         lookup_events.append(event)
         if event.func_qualifier & DgbFuncQual.DBG_FUNC_START.value:
             debugid = event.values[0]
@@ -188,7 +191,7 @@ def handle_trace_string_threadname(parser, events):
     if not events[0].func_qualifier & DgbFuncQual.DBG_FUNC_START.value:
         # A continuation chunk of a multi-record name, the whole name is reported on its last chunk.
         return None
-    name = b''.join([e.data for e in events]).replace(b'\x00', b'').decode()
+    name = b''.join([e.data for e in events if e.eventid == events[0].eventid]).replace(b'\x00', b'').decode()
     event = TraceStringThreadname(events, name)
     parser.tids_names[events[0].tid] = event.name
     return event
@@ -198,7 +201,7 @@ def handle_trace_string_threadname_prev(parser, events):
     if not events[0].func_qualifier & DgbFuncQual.DBG_FUNC_START.value:
         # A continuation chunk of a multi-record name, the whole name is reported on its last chunk.
         return None
-    name = b''.join([e.data for e in events]).replace(b'\x00', b'').decode()
+    name = b''.join([e.data for e in events if e.eventid == events[0].eventid]).replace(b'\x00', b'').decode()
     event = TraceStringThreadnamePrev(events, name)
     parser.tids_names[events[0].tid] = event.name
     return event
